@@ -9,7 +9,7 @@ use pyo3::types::{PyDict, PyList, PyModule};
 /// Python side of the harness. Every function returns a JSON string; floats travel as strings so
 /// that infinities survive and comparisons are exact.
 const HELPER: &str = r#"
-import gc, json, io
+import gc, json, io, struct
 
 def _f(x):
     if isinstance(x, float):
@@ -31,18 +31,48 @@ def guard(fn):
             return json.dumps(_exc(e))
     return wrapped
 
+class IndexLike:
+    """An integer in the sense of the index protocol (what numpy.int64 and friends are)."""
+    def __init__(self, i):
+        self.i = i
+    def __index__(self):
+        return self.i
+
 @guard
-def do_index(obj, i):
+def do_index(obj, i, kind=0):
+    if kind == 1:
+        i = IndexLike(i)
+    elif kind == 2:
+        i = bool(i)
     return _f(obj[i])
 
 @guard
 def do_len(obj):
     return len(obj)
 
+def _flat(x):
+    if isinstance(x, list):
+        for y in x:
+            yield from _flat(y)
+    else:
+        yield x
+
+def _raw(mv, items):
+    # the bytes the view hands out as a whole, against the packing of its own elements
+    try:
+        b = mv.tobytes()
+    except BaseException as e:
+        return {"exc": type(e).__name__, "msg": str(e)[:200]}
+    flat = list(_flat(items))
+    exp = struct.pack("%d%s" % (len(flat), mv.format), *flat)
+    return {"len": len(b), "want": len(exp), "same": b == exp}
+
 def describe(mv):
+    items = mv.tolist()
     return {"ndim": mv.ndim, "shape": list(mv.shape), "strides": list(mv.strides),
             "format": mv.format, "itemsize": mv.itemsize, "readonly": mv.readonly,
-            "list": _f(mv.tolist())}
+            "nbytes": mv.nbytes, "raw": _raw(mv, items),
+            "list": _f(items)}
 
 @guard
 def take_view(store, key, obj):
@@ -69,10 +99,18 @@ def new_seq(lm, text, protein):
 def collect():
     return gc.collect()
 
+def _other_motif(lm, width):
+    return lm.ScoringMatrix({k: [0.25 * ((i + j) % 5) - 0.5 for i in range(width)] for j, k in enumerate("ACTG")})
+
 @guard
-def do_scan(lm, values, seq, threshold, block_size, poke_width):
+def do_scan(lm, values, seq, threshold, block_size, poke_width, pre_width=0, use_copy=False):
     pssm = lm.ScoringMatrix(values)
     striped = lm.stripe(seq)
+    if pre_width > 0:
+        # the sequence object has a past: it was scored with another motif before
+        _other_motif(lm, pre_width).calculate(striped)
+    if use_copy:
+        striped = striped.copy()
     hits = []
     overflow = False
     poked = poke_width <= 0
@@ -81,8 +119,7 @@ def do_scan(lm, values, seq, threshold, block_size, poke_width):
         if not poked:
             # score the same sequence object with another motif while the scanner is alive
             poked = True
-            other = lm.ScoringMatrix({k: [0.25 * ((i + j) % 5) - 0.5 for i in range(poke_width)] for j, k in enumerate("ACTG")})
-            other.calculate(striped)
+            _other_motif(lm, poke_width).calculate(striped)
         if len(hits) > len(seq) + 2:
             overflow = True
             break
